@@ -24,7 +24,20 @@ def run(tier, replay=None):
     total = pipeline.run(builts, cells, "vlib.checks._cat", "plan_c01", {"cap": cap},
                          deadline_s=700 if tier == "quick" else 3600)
     _cat.report_pipeline(rep, builts, total, "enc")
-    ops = total.counters.get("ops", 0) * len(cells)
+    # kinds: every primitive / enum / set / composite-with-refs / array encoding kind, both byte orders
+    from ..enum import kinds
+    kcells = cxx.QUICK_CELLS if tier == "quick" else cxx.ALL_CELLS
+    ks = []
+    for bo in ("littleEndian", "bigEndian"):
+        s = kinds.kinds_schema(bo)
+        ks.append((s, [m.name for m in s.msgs]))
+    kb = pipeline.prepare("kinds-" + tier, ks, kcells)
+    kt = pipeline.run(kb, kcells, "vlib.checks._cat", "plan_c01", {"cap": 8 if tier == "quick" else 30})
+    _cat.report_pipeline(rep, kb, kt, "enc-kinds")
+    total.cases += kt.cases
+    total.ok += kt.ok
+    total.distinct |= kt.distinct
+    ops = total.counters.get("ops", 0) * len(cells) + kt.counters.get("ops", 0) * len(kcells)
     rep.set("states", len(total.distinct) * 1)
     rep.set("transitions", ops)
     rep.set("traces_validated_against_impl", ops)
